@@ -20,8 +20,20 @@ class BBANDS(Indicator):
         return f"{self._name}_{self.period}"
 
     def _initialise(self):
-        self.add_sub_indicator(StandardDeviation(input_value=self.input_value, period=self.period))
-        self.add_sub_indicator(SMA(input_value=self.input_value, period=self.period))
+        self.add_sub_indicator(
+            StandardDeviation(
+                input_value=self.input_value,
+                period=self.period,
+                fullname_override=f"{self.name}_STDEV",
+            )
+        )
+        self.add_sub_indicator(
+            SMA(
+                input_value=self.input_value,
+                period=self.period,
+                fullname_override=f"{self.name}_SMA",
+            )
+        )
 
     def _calculate_reading(self, index: int) -> float | dict | None:
         bbands = {
@@ -30,11 +42,11 @@ class BBANDS(Indicator):
             "BBU": None,
         }
         if (
-            self.reading(f"SMA_{self.period}") is not None
-            and self.reading(f"STDEV_{self.period}") is not None
+            self.reading(f"{self.name}_SMA") is not None
+            and self.reading(f"{self.name}_STDEV") is not None
         ):
-            sma = self.reading(f"SMA_{self.period}")
-            stdev = self.reading(f"STDEV_{self.period}")
+            sma = self.reading(f"{self.name}_SMA")
+            stdev = self.reading(f"{self.name}_STDEV")
 
             bbands["BBM"] = sma
             bbands["BBL"] = sma - (stdev * self._std)
